@@ -38,7 +38,7 @@ fn comment_lines(r: &Rendered, b: &ExpBlock) -> (usize, usize, usize, usize) {
     (pos_at(&r.text, s.lo).0, last_line(s.hi), pos_at(&r.text, e.lo).0, last_line(e.hi))
 }
 
-fn gen_file(rng: &mut Rng, fi: usize, idx: usize, names: &mut Vec<(String, String)>) -> (FileSpec, String) {
+fn gen_file(rng: &mut Rng, fi: usize, idx: usize, names: &mut Vec<(String, String)>, rules: bool) -> (FileSpec, String) {
     let lang = lang(LANGS_D[(idx / 3 + fi) % LANGS_D.len()]);
     let suffix = lang.suffixes[rng.below(lang.suffixes.len())];
     let dir = ["", "src/", "b/", "a/b/", "docs/x y/"][rng.below(5)];
@@ -59,6 +59,19 @@ fn gen_file(rng: &mut Rng, fi: usize, idx: usize, names: &mut Vec<(String, Strin
         }
         // affects is filled in later (needs all names); placeholder keeps the slot
         attrs.push(("affects".into(), "@".into()));
+        // content rules (C02: same verdicts as a full scan for every selected block)
+        if rules {
+            match rng.below(5) {
+                0 => attrs.push(("keep-sorted".into(), ["asc", "desc"][rng.below(2)].into())),
+                1 => attrs.push(("line-count".into(), format!("{}{}", ["<", ">", "=="][rng.below(3)], rng.below(5)))),
+                2 => attrs.push(("keep-unique".into(), String::new())),
+                3 => {
+                    attrs.push(("keep-sorted".into(), "asc".into()));
+                    attrs.push(("line-count".into(), "<2".into()));
+                }
+                _ => {}
+            }
+        }
         let mut start = if lang.block.is_some() && (lang.line.is_empty() || rng.chance(1, 3)) {
             if rng.chance(1, 3) { Place { form: Form::BlockMulti { before: rng.below(2), after: rng.below(3), deco: rng.chance(1, 2) && lang.block.map(|b| b.0) == Some("/*") }, indent: String::new(), pre: " ".into(), post: " ".into(), trailing: String::new() } } else { Place::block_one() }
         } else {
@@ -76,7 +89,17 @@ fn gen_file(rng: &mut Rng, fi: usize, idx: usize, names: &mut Vec<(String, Strin
         }
         let end = if lang.line.is_empty() || (lang.block.is_some() && rng.chance(1, 4)) { Place::block_one() } else { Place::line() };
         let mut body = Vec::new();
-        for k in 0..rng.range(0, 5) {
+        let nlines = rng.range(0, 5);
+        let mut ks: Vec<usize> = (0..nlines).collect();
+        if rules && rng.chance(1, 2) && nlines >= 2 {
+            let a = rng.below(nlines);
+            let b = rng.below(nlines);
+            ks.swap(a, b);
+            if rng.chance(1, 3) {
+                ks[a] = ks[b];
+            }
+        }
+        for k in ks {
             body.push(GNode::Text(lang.wrap_token(&format!("c{bi}{k}"))));
         }
         if rng.chance(1, 5) && !lang.line.is_empty() {
@@ -155,12 +178,12 @@ fn mutate_within(rng: &mut Rng, line: &str, lo: usize, hi: usize) -> String {
     format!("{}{}{}", &line[..lo], out.iter().collect::<String>(), &line[hi..])
 }
 
-pub fn generate(rng: &mut Rng, idx: usize, _tier: Tier, with_globs: bool) -> CaseOut {
+pub fn generate(rng: &mut Rng, idx: usize, _tier: Tier, with_globs: bool, rules: bool) -> CaseOut {
     let nfiles = rng.range(1, 3);
     let mut names: Vec<(String, String)> = Vec::new();
     let mut specs = Vec::new();
     for fi in 0..nfiles {
-        specs.push(gen_file(rng, fi, idx, &mut names));
+        specs.push(gen_file(rng, fi, idx, &mut names, rules));
     }
     let mut files: Vec<GenFile> = Vec::new();
     for (mut fs, path) in specs {
@@ -243,7 +266,20 @@ pub fn generate(rng: &mut Rng, idx: usize, _tier: Tier, with_globs: bool) -> Cas
                     special = Some((bi, 3));
                 }
             }
-            if special.is_none() {
+            // scenario 4: earlier hunks shrink the file so much that a pure deletion shortly above the
+            // block carries an OLD line number beyond the block's last new line, then an edit inside the block
+            let mut shift_done = false;
+            if class == 4 && special.is_none() && sf >= 7 && ef > sl + 1 {
+                let big = (el - sf) + rng.range(6, 12);
+                groups.push(Group { t: 1, added: 0, deleted: (0..big).map(|k| gf.lang.wrap_token(&format!("top{k}"))).collect() });
+                groups.push(Group { t: sf - 3, added: 0, deleted: vec![gf.lang.wrap_token("above")] });
+                let inside = rng.range(sl + 1, ef - 1);
+                let l = &new_lines[inside - 1];
+                groups.push(Group { t: inside, added: 1, deleted: vec![if l.is_empty() { "x".to_string() } else { mutate_within(rng, l, 0, l.len()) }] });
+                tags.push("scenario:shifted-deletion-before-block".into());
+                shift_done = true;
+            }
+            if special.is_none() && !shift_done {
                 let g = match kind {
                     0 => Group { t: line, added: rng.range(1, 2).min(n + 1 - line), deleted: vec![] },
                     1 => {
@@ -261,12 +297,12 @@ pub fn generate(rng: &mut Rng, idx: usize, _tier: Tier, with_globs: bool) -> Cas
                 groups.push(g);
                 tags.push(format!("place:{place}"));
                 tags.push(format!("kind:{}", ["add", "modify", "delete", "mixed"][kind]));
-            } else {
-                tags.push(format!("class:{}", special.unwrap().1));
+            } else if let Some((_, cls)) = special {
+                tags.push(format!("class:{cls}"));
             }
         }
         // random further groups, kept apart from the existing ones (special scenarios need quiet surroundings)
-        let extra = if special.is_some() { rng.below(2) } else { rng.below(4) };
+        let extra = if special.is_some() { rng.below(2) } else if tags.last().map(|t| t.starts_with("scenario:")).unwrap_or(false) { 0 } else { rng.below(4) };
         for _ in 0..extra {
             let t = rng.range(1, n + 1);
             let added = if t <= n { rng.below(3).min(n + 1 - t) } else { 0 };
@@ -427,9 +463,32 @@ pub fn generate(rng: &mut Rng, idx: usize, _tier: Tier, with_globs: bool) -> Cas
         jfps.push(json!({"file": d.path, "groups": f.iter().map(|x| json!([x.t, x.added, x.deleted, x.src])).collect::<Vec<_>>()}));
         fps.push(format!("({}, [{}])", cstr(&d.path), f.iter().map(|x| format!("mkfp {} {} {} {}", x.t, x.added, x.deleted, x.src)).collect::<Vec<_>>().join("; ")));
     }
+    // relational oracle (independent of the model): content-rule diagnostics of this run = those of a
+    // full scan of the same files, restricted to the blocks this run selected
+    let mut rel_ok = true;
+    let mut rel_json = json!(null);
+    if rules {
+        let scan = imp::run(&RunSpec { files: spec.files.clone(), globs: vec!["**".into()], ..Default::default() });
+        if let (Outcome::Ok((full, _)), Outcome::Ok((mine, _)), Outcome::Ok(listed)) = (&scan.run, &out.run, &out.list) {
+            let owner = |d: &imp::Diag| -> Option<(String, usize, usize)> {
+                let gf = files.iter().find(|f| f.path == d.file)?;
+                // the outermost block by construction whose lines hold the diagnostic
+                gf.rendered.blocks.iter().zip(gf.spans.iter()).filter(|(b, sp)| b.depth == 0 && sp.0 <= d.sl && d.sl <= sp.3).map(|(b, _)| (d.file.clone(), b.ts.0, b.ts.1)).next()
+            };
+            let selected = |o: &(String, usize, usize)| listed.iter().any(|l| l.file == o.0 && l.line == o.1 && l.col == o.2);
+            let key = |d: &imp::Diag| (d.file.clone(), d.sl, d.sc, d.el, d.ec, d.code.clone(), d.sev, d.data.clone());
+            let mut want: Vec<_> = full.iter().filter(|d| d.code != "affects").filter(|d| owner(d).map(|o| selected(&o)).unwrap_or(false)).map(key).collect();
+            let mut got: Vec<_> = mine.iter().filter(|d| d.code != "affects").map(key).collect();
+            want.sort();
+            got.sort();
+            rel_ok = want == got;
+            rel_json = json!({"full_scan_rule_diagnostics": full.iter().filter(|d| d.code != "affects").count(), "this_run": got.len(), "expected": want.len()});
+            tags.push(format!("rule-diags:{}", got.len().min(4)));
+        }
+    }
     let coq = format!(
-        "(check_drift {} {} {} {} [{}] [{}] [{}] {})",
-        rcase, cobs, emit::lobs(&out.list), emit::obs(&out.run), scanned.join("; "), facts.join("; "), fps.join("; "), cbool(f3)
+        "(check_drift_rel {} {} {} {} [{}] [{}] [{}] {} {})",
+        rcase, cobs, emit::lobs(&out.list), emit::obs(&out.run), scanned.join("; "), facts.join("; "), fps.join("; "), cbool(f3), cbool(rel_ok)
     );
     if let Outcome::Ok(l) = &out.list {
         tags.push(format!("listed:{}", l.len().min(5)));
@@ -443,7 +502,7 @@ pub fn generate(rng: &mut Rng, idx: usize, _tier: Tier, with_globs: bool) -> Cas
     let key = format!("{}|{}", diff_text, files.iter().map(|f| f.rendered.text.as_str()).collect::<Vec<_>>().join("|"));
     CaseOut {
         coq,
-        json: json!({"input": spec_json(&spec), "U": u, "blocks": jfacts, "footprints": jfps, "known_f3_lookalike": f3, "implementation": impl_json(&out),
+        json: json!({"input": spec_json(&spec), "U": u, "blocks": jfacts, "footprints": jfps, "known_f3_lookalike": f3, "relational": rel_json, "implementation": impl_json(&out),
                      "line_changes": match &out.changes { Outcome::Ok(m) => json!(m), _ => json!(null) }}),
         key,
         nontrivial: !diffs.is_empty() && files.iter().any(|f| !f.rendered.blocks.is_empty()),
